@@ -59,12 +59,14 @@ def ctxOracles (id op : String) (c : Ctx) (x y : Dec) (iarg : Int) (impl : Out) 
     out := out ++ [s!"{id} PROPFAIL C02 flag bit outside the twelve conditions"]
   if coeffNeg then
     out := out ++ [s!"{id} PROPFAIL C04 negative coefficient"]
+  -- C01/C02/C07 quantify over well-formed contexts with Precision ≤ MaxExponent (properties.jsonl, C01)
+  let wfRange : Bool := decide ((c.prec : Int) ≤ c.emax)
   if delivered impl.err then
-    if fitsOps.contains op && !fits c impl.d then
+    if wfRange && fitsOps.contains op && !fits c impl.d then
       out := out ++ [s!"{id} PROPFAIL C07 result does not fit the context"]
     if op == "quoint" && impl.d.form == .finite && impl.d.exp != 0 then
       out := out ++ [s!"{id} PROPFAIL C07 QuoInteger exponent not 0"]
-    match exactOf op c x y with
+    match (if wfRange then exactOf op c x y else none) with
     | none => pure ()
     | some ex =>
       let spec? := if c.prec == 0 then specExact c ex else some (specRound c ex)
